@@ -41,6 +41,7 @@ CONSTANTS
   ClockMoves,       \* BOOLEAN: environment may move the clock between phases
   EnforceChoices,   \* subset of BOOLEAN: expiration enforcement settings explored
   Reads,            \* BOOLEAN: target reads on the loaded repository are explored
+  MaxReads,         \* at most this many reads per loaded repository
   ShipRule(_, _),   \* (candidate shipped root, highest root verified so far) -> BOOLEAN
   Chain0            \* the genuine root chain (key history): Chain0[v] = root document version v
 
@@ -60,14 +61,15 @@ VARIABLES
   maxRoot,   \* highest root version this client has verified in any cycle
   stale,     \* number of cycles started from a shipped root older than maxRoot
   walk,      \* the roots trusted in this cycle, in order: the shipped one, then each adopted one
+  nread,     \* target reads since the repository was loaded
   reord,     \* number of cycles in which step 1.9 fired although key SETS and thresholds were equal
   last,      \* the last phase event: [ev, s] (what was served), for properties about errors
   chain,     \* the published root chain (constant during a behaviour; a variable so that
              \* recorded traces can carry their own)
   hist       \* every environment choice and outcome (replay generation; hidden by VIEW)
 
-vars == <<pc, cyc, shipped, root, cur, store, known, now, enforce, reqs, res, succ, maxRoot, stale, walk, reord, last, chain, hist>>
-view == <<pc, cyc, shipped, root, cur, store, known, now, enforce, reqs, res, succ, maxRoot, stale, walk, reord, last, chain>>
+vars == <<pc, cyc, shipped, root, cur, store, known, now, enforce, reqs, res, succ, maxRoot, stale, walk, reord, nread, last, chain, hist>>
+view == <<pc, cyc, shipped, root, cur, store, known, now, enforce, reqs, res, succ, maxRoot, stale, walk, reord, nread, last, chain>>
 
 NoDoc   == [k |-> "none"]
 Garbage == [k |-> "garbage"]
@@ -163,7 +165,7 @@ Init ==
   /\ store = NoCur /\ known = -1
   /\ now \in Times /\ enforce = TRUE
   /\ reqs = <<>> /\ res = "none" /\ succ = <<>> /\ maxRoot = 0 /\ stale = 0
-  /\ walk = <<>> /\ reord = 0
+  /\ walk = <<>> /\ reord = 0 /\ nread = 0
   /\ last = [ev |-> "none", s |-> NoDoc] /\ chain = Chain0
   /\ hist = <<>>
 
@@ -175,7 +177,7 @@ StartWith(sh, enf) ==
   /\ cyc' = cyc + 1 /\ shipped' = sh /\ enforce' = enf /\ reqs' = <<>> /\ cur' = NoCur
   /\ stale' = IF sh.v < maxRoot THEN stale + 1 ELSE stale
   /\ last' = [ev |-> "start", s |-> NoDoc]
-  /\ walk' = <<sh>> /\ UNCHANGED reord
+  /\ walk' = <<sh>> /\ nread' = 0 /\ UNCHANGED reord
   /\ IF Verifies(sh.signers, sh.rk, sh.rthr)
      THEN /\ root' = sh /\ pc' = "root" /\ res' = "running"
           /\ maxRoot' = IF sh.v > maxRoot THEN sh.v ELSE maxRoot
@@ -195,7 +197,7 @@ RootFail ==          \* the `ensure!` at the top of the loop: no request is made
   /\ Fail("MaxUpdatesExceeded")
   /\ last' = [ev |-> "rootmax", s |-> NoDoc]
   /\ hist' = Append(hist, [ev |-> "rootmax"])
-  /\ UNCHANGED <<cyc, shipped, root, cur, store, known, now, enforce, reqs, succ, maxRoot, stale, walk, reord, chain>>
+  /\ UNCHANGED <<cyc, shipped, root, cur, store, known, now, enforce, reqs, succ, maxRoot, stale, walk, reord, nread, chain>>
 RootRes(s) ==
   LET o == RootOutcome(root, s) IN
   IF o = "stop" THEN LET tc == TimeCheck(root, "Expired:root") IN IF tc = "ok" THEN "stop" ELSE tc
@@ -223,7 +225,7 @@ RootStepWith(s) ==
                                ELSE /\ Fail(tc) /\ UNCHANGED <<store, reord>>
                             /\ UNCHANGED <<root, maxRoot, walk>>
           [] OTHER       -> /\ Fail(o) /\ UNCHANGED <<root, maxRoot, store, known, walk, reord>>
-  /\ UNCHANGED <<cyc, shipped, cur, now, enforce, succ, stale, chain>>
+  /\ UNCHANGED <<cyc, shipped, cur, now, enforce, succ, stale, nread, chain>>
 RootStep == pc = "root" /\ ~RootMaxed /\ \E s \in CandRoot(root.v + 1, root) : RootStepWith(s)
 
 \* 2. timestamp
@@ -241,7 +243,7 @@ TsStepWith(s) ==
            THEN /\ store' = [store EXCEPT !.ts = s] /\ cur' = [cur EXCEPT !.ts = s]
                 /\ pc' = "sn" /\ UNCHANGED res
            ELSE /\ Fail(tc) /\ UNCHANGED <<store, cur>>
-  /\ UNCHANGED <<cyc, shipped, root, now, enforce, succ, maxRoot, stale, walk, reord, chain>>
+  /\ UNCHANGED <<cyc, shipped, root, now, enforce, succ, maxRoot, stale, walk, reord, nread, chain>>
 TsStep == pc = "ts" /\ \E s \in CandTs(root) : TsStepWith(s)
 
 \* 3. snapshot: named and bounded by what the trusted timestamp lists.  When the timestamp
@@ -252,7 +254,7 @@ SnMissing ==
   /\ Fail("MetaMissing")
   /\ last' = [ev |-> "snmissing", s |-> NoDoc]
   /\ hist' = Append(hist, [ev |-> "snmissing"])
-  /\ UNCHANGED <<cyc, shipped, root, cur, store, known, now, enforce, reqs, succ, maxRoot, stale, walk, reord, chain>>
+  /\ UNCHANGED <<cyc, shipped, root, cur, store, known, now, enforce, reqs, succ, maxRoot, stale, walk, reord, nread, chain>>
 SnRes(s) == LET o == SnOutcome(root, cur.ts, s, store) IN
             IF o = "ok" THEN TimeCheck(s, "Expired:snapshot") ELSE o
 SnStepWith(s) ==
@@ -267,7 +269,7 @@ SnStepWith(s) ==
            THEN /\ store' = [store EXCEPT !.sn = s] /\ cur' = [cur EXCEPT !.sn = s]
                 /\ pc' = "tg" /\ UNCHANGED res
            ELSE /\ Fail(tc) /\ UNCHANGED <<store, cur>>
-  /\ UNCHANGED <<cyc, shipped, root, now, enforce, succ, maxRoot, stale, walk, reord, chain>>
+  /\ UNCHANGED <<cyc, shipped, root, now, enforce, succ, maxRoot, stale, walk, reord, nread, chain>>
 SnStep == pc = "sn" /\ cur.ts.pin.v # 0 /\ \E s \in CandSn(root, cur.ts) : SnStepWith(s)
 
 \* 4. top-level targets: named and bounded by what the trusted snapshot lists
@@ -286,7 +288,7 @@ TgMissing ==
   /\ Fail("MetaMissing")
   /\ last' = [ev |-> "tgmissing", s |-> NoDoc]
   /\ hist' = Append(hist, [ev |-> "tgmissing"])
-  /\ UNCHANGED <<cyc, shipped, root, cur, store, known, now, enforce, reqs, succ, maxRoot, stale, walk, reord, chain>>
+  /\ UNCHANGED <<cyc, shipped, root, cur, store, known, now, enforce, reqs, succ, maxRoot, stale, walk, reord, nread, chain>>
 TgRes(s) == LET o == TgOutcome(root, cur.sn, s, store) IN
             IF o = "ok" THEN TimeCheck(s, "Expired:targets") ELSE o
 TgStepWith(s) ==
@@ -302,7 +304,7 @@ TgStepWith(s) ==
                 /\ pc' = "loaded" /\ res' = "ok"
                 /\ succ' = Append(succ, Summary(s))
            ELSE /\ Fail(tc) /\ UNCHANGED <<store, cur, succ>>
-  /\ UNCHANGED <<cyc, shipped, root, now, enforce, maxRoot, stale, walk, reord, chain>>
+  /\ UNCHANGED <<cyc, shipped, root, now, enforce, maxRoot, stale, walk, reord, nread, chain>>
 TgStep == pc = "tg" /\ cur.sn.pin.v # 0 /\ \E s \in CandTg(root, cur.sn) : TgStepWith(s)
 
 \* Repository::read_target / save_target on the loaded repository: re-checks the earliest
@@ -313,7 +315,8 @@ ReadRes ==
   ELSE IF known # -1 /\ now < known THEN "SystemTimeSteppedBackward"
   ELSE IF now > e.exp THEN "Expired:" \o e.expRole ELSE "read-ok"
 ReadTarget ==
-  /\ Reads /\ pc = "loaded" /\ last.ev # "read"
+  /\ Reads /\ pc = "loaded" /\ last.ev # "read" /\ nread < MaxReads
+  /\ nread' = nread + 1
   /\ res' = ReadRes
   /\ known' = IF enforce /\ ReadRes # "SystemTimeSteppedBackward" THEN now ELSE known
   /\ last' = [ev |-> "read", s |-> NoDoc]
@@ -325,7 +328,7 @@ ClockTo(t) ==
   /\ now' = t
   /\ hist' = Append(hist, [ev |-> "clock", now |-> t])
   /\ last' = [ev |-> "clock", s |-> NoDoc]
-  /\ UNCHANGED <<pc, cyc, shipped, root, cur, store, known, enforce, reqs, res, succ, maxRoot, stale, walk, reord, chain>>
+  /\ UNCHANGED <<pc, cyc, shipped, root, cur, store, known, enforce, reqs, res, succ, maxRoot, stale, walk, reord, nread, chain>>
 ClockJump == ClockMoves /\ last.ev # "clock" /\ pc # "idle" /\ \E t \in Times \ {now} : ClockTo(t)
 
 Next == StartCycle \/ RootFail \/ RootStep \/ TsStep \/ SnMissing \/ SnStep \/ TgMissing \/ TgStep
@@ -452,7 +455,7 @@ HistBound(n) == Len(hist) <= n
 \* replay generation: one JSON line per finished behaviour (hist is part of the state there)
 Done == /\ cyc = MaxCycles
         /\ \/ pc = "idle"
-           \/ pc = "loaded" /\ (~Reads \/ last.ev = "read")
+           \/ pc = "loaded" /\ (~Reads \/ nread = MaxReads)
 Emit == Done => PrintT(<<"REPLAY", ToJson([chain |-> chain, hist |-> hist,
                   limits |-> [root |-> Limit.root, ts |-> Limit.ts, sn |-> Limit.sn, tg |-> Limit.tg,
                               updates |-> MaxRootUpdates]])>>)
